@@ -104,7 +104,7 @@ func c08MaxBatch(cfg string) int {
 
 // c08Adv is the reduced adversarial string set (no NUL, valid UTF-8).
 func c08Adv(thorough bool) []string {
-	a := []string{"", " ", "a b", "Doc:d1#viewers@u1", "(x)", "%41", "a+b", "a&b=c", `"q"`, `b\s`, "é", "é", "של", "\U0001F600"}
+	a := []string{"", " ", "a b", "Doc:d1#viewers@u1", "(x)", "%41", "a+b", "a&b=c", `"q"`, `b\s`, "\u00E9", "e\u0301", "\u05E9\u05DC", "\U0001F600"}
 	if !thorough {
 		return a[:9]
 	}
@@ -667,7 +667,7 @@ func (r *c08Run) runSingle(s *apih.Server, st c08State, t *ketoapi.RelationTuple
 		}
 		if d.Valid {
 			key := ""
-			if want.Kind == "allowed" || depthDependent || want.Kind == "unknown-namespace" || want.Kind == "error" {
+			if want.Kind == "allowed" || depthDependent || want.Kind == "error" {
 				key = fmt.Sprintf("s|%s|%s|%s", st, refsem.Key(t), d.Name)
 			}
 			r.note(want.Kind, key)
@@ -880,7 +880,7 @@ func TestC08(t *testing.T) {
 		w := &c08Worker{t: t, thorough: rp["tier"] == "thorough", srv: map[int]*apih.Server{}}
 		cands := r.rerun(w, states, cs)
 		for _, c := range cands {
-			run.Violation(c.Sig, c.What, rp)
+			run.Violation(c08FinalSig(c), c.What, rp)
 		}
 		if len(cands) == 0 {
 			fmt.Println("  [replay] the recorded case satisfies the oracle now")
@@ -993,7 +993,7 @@ func TestC08(t *testing.T) {
 			}
 		}
 		cd = r.c08Minimise(w0.server(states, si), cd)
-		run.Violation(cd.Sig, cd.What, map[string]any{"case": cd.Case, "tier": ev.Tier(), "store": c08Store(cd.Case.State.Store, thorough)})
+		run.Violation(c08FinalSig(cd), cd.What, map[string]any{"case": cd.Case, "tier": ev.Tier(), "store": c08Store(cd.Case.State.Store, thorough)})
 	}
 
 	run.Assume(
@@ -1018,7 +1018,7 @@ func TestC08(t *testing.T) {
 	run.Finish(map[string]any{
 		"evaluations":          int(r.evals.Load()),
 		"distinct_nontrivial":  len(r.nontriv),
-		"rule":                 "evaluation = one transport answer (or one batch entry) compared with the engine; non-trivial = distinct (state, tuple, max-depth) whose engine decision is allowed, depends on max-depth, is an engine error or an unknown namespace, plus distinct (state, transport, batch sequence, max-depth) of length >= 2 that mixes letters or repeats one, plus the max-size / max+1 cases",
+		"rule":                 "evaluation = one transport answer (or one batch entry) compared with the engine; non-trivial = distinct (state, tuple, max-depth) whose engine decision is allowed, depends on max-depth or is an engine error (unknown namespaces and plain denials are evaluated but not counted), plus distinct (state, transport, batch sequence, max-depth) of length >= 2 that mixes letters or repeats one, plus the max-size / max+1 cases",
 		"requests":             int(r.requests.Load()),
 		"states":               len(states),
 		"query_tuples":         len(queries),
@@ -1035,6 +1035,19 @@ func TestC08(t *testing.T) {
 		"exhaustive":           !timedOut.Load() && unstable == 0,
 		"workers":              workers,
 	})
+}
+
+// c08FinalSig: the structural class of a failing batch is transport, failure
+// kind and the letters of the minimal failing batch.
+func c08FinalSig(cd c08Cand) string {
+	if cd.Case.Family != "batch" {
+		return cd.Sig
+	}
+	names := make([]string, len(cd.Case.Letters))
+	for i, l := range cd.Case.Letters {
+		names[i] = c08LetterNames[l]
+	}
+	return cd.Sig + ":minimal-batch=" + strings.Join(names, "+")
 }
 
 func c08PlainNamespaces() []*namespace.Namespace {
